@@ -24,6 +24,7 @@
 -/
 import LccModel.Proto
 import LccModel.Model.Expand
+import LccModel.Model.ParamSource
 import LccModel.Lemmas.Graph
 open Lean LccModel LccModel.Proto LccModel.Loader LccModel.Expand
 
@@ -130,9 +131,16 @@ def parseDeco (j : Json) : Except String Deco := do
   | "hidden" => pure .hidden
   | "depends_on" => pure (.dependsOn (← (← getArrD j "args").mapM parseDepArg))
   | "parametrized" =>
-    let sets ← (← getArrD j "sets").mapM parseParams
+    -- the source as written: `header` (a string: `ParamSource.parseHeader` finds the names) / `names` (tuple or list header)
+    -- with `rows`, or the dicts themselves (`sets`); the decorator stores what `parameters_source` yields (`Source.sets`)
+    let rows ← (← getArrD j "rows").mapM (fun r => do (← r.getArr?).toList.mapM parsePVal)
+    let src ← (match j.getObjVal? "header" with
+      | .ok (.str h) => pure (LccModel.ParamSource.Source.csvStr h rows)
+      | _ => match j.getObjVal? "names" with
+        | .ok ns => do pure (LccModel.ParamSource.Source.csvSeq (← (← ns.getArr?).toList.mapM (fun x => x.getStr?)) rows)
+        | .error _ => do pure (LccModel.ParamSource.Source.dicts (← (← getArrD j "sets").mapM parseParams)))
     let n ← parseNaming (← j.getObjVal? "naming")
-    pure (.parametrized sets n)
+    pure (.parametrized src.sets n)
   | k => throw s!"unknown decorator {k}"
 
 def parseDecl (j : Json) : Except String Expand.TestDecl := do
